@@ -33,7 +33,10 @@ RULE = ('single species: every configuration that differs from the default speci
         'at least one feature the default file does not (branch tag); plus explicit families (both tiers): '
         'coefficients whose nine-digit rounding carries into the next decade in every position, names and notes '
         'with every punctuation character in first/middle/last position, every printable phase character, '
-        'integer-typed numbers, boundary option values, objects edited in place between two writes')
+        'integer-typed numbers, boundary option values, objects edited in place between two writes, '
+        'temperature bounds with non-terminating / long decimal expansions and on the 0.05 K rounding carries in '
+        'every position, supplementary data that is itself a whole thermdat text (own THERMO header and END line) '
+        'followed by the written species')
 ASSUMPTIONS = [
     'field values come from the finite alphabets listed in bounds (placed on every column/width boundary '
     'of the format: 1/2-letter symbols x 1/2/3-digit counts, 15-character names, 6-character temperatures, '
@@ -46,7 +49,10 @@ ASSUMPTIONS = [
     'values, species edited in place between two writes',
     'with read format dict and a repeated species name the dictionary cannot hold both; only "every entry is '
     'one of the written species of that name" is required there',
-    'supplementary data blocks are well-formed Chemkin entries produced by the reference formatter',
+    'supplementary data blocks are well-formed Chemkin entries produced by the reference formatter, bare or '
+    'wrapped as a complete thermdat text (THERMO header, default temperatures, END line; also the text returned '
+    'by write_thermdat itself); a file whose supplementary data holds an END line must still read back to all '
+    'species, those after that END included ("reading never silently drops species")',
 ]
 EXPLANATION = ('explicit enumeration on the implementation: every case writes a real file with write_thermdat and '
                'reads it with read_thermdat; the written text is decoded by an independent fixed-column parser')
@@ -265,6 +271,18 @@ NAMES_SPECIAL = ['END!1', 'THERMO!x', 'END!', '!END', '!THERMO', 'END&', 'THERMO
 NOTES_SPECIAL = ['END', 'THERMO', 'END 1', 'THERMO A', '1', '4', '12345678', '1.5E+05', 'a b', 'a  b c', '1 2 3',
                  '100 500', ' x', 'x ', '   ', 'G', 'H   2', '!', '!!', 'END!', '! END']
 INT_A = [3, 1, 0, -2, 5, -30220, 2, 4, -1, 7, 0, -3, -30281, 1]
+# temperatures inside 1-9999.9 K that are not multiples of 0.1 K: non-terminating expansions (n/3, n/7), many
+# decimals, just below / on / above the 0.05 K rounding point, values whose 0.1 K rounding is one character wider
+# (9.96 -> 10.0, 99.95.. -> 100.0, 999.96 -> 1000.0) and the top of the range (9999.94.. -> 9999.9)
+T_LONG = [1.04, 1.05, 10.0 / 3.0, 9.96, 100.0 / 7.0, 99.95000001, 1000.0 / 3.0, 812.3456789, 999.96, 1234.56789012,
+          20000.0 / 7.0, 5000.04, 9999.94, 9999.9499999]
+T_LONG_ELEMENTS = [[['H', 2, 'int']], [['Cu', 2, 'float']],
+                   [['Cu', 999, 'int'], ['Pt', 999, 'int'], ['Ni', 999, 'int'], ['Zn', 999, 'int']],
+                   [['C', 123, 'int'], ['H', 123, 'int'], ['O', 123, 'int'], ['N', 123, 'int']]]
+# supplementary data that carries keyword lines of its own (see _supp_text)
+SUPP_INNER = ['file-one', 'file-two', 'file-nonl', 'file-self', 'file-self-dated', 'two-files', 'end-only',
+              'end-first', 'end-padded', 'end-comment', 'thermo-only']
+SUPP_HDR = 'THERMO ALL\n   300.000  1000.000  5000.000\n'
 
 
 def _dflt(**kw):
@@ -374,6 +392,34 @@ def _extra_cases(tier):
             if sd in (None, 'one') and st in (None, '!c') and nl in ('\n', '\r\n') and wd in (True, False):
                 continue                                  # already in the deviation product
             yield _xcase('options', [_dflt(notes='ab12cd34')], write_date=wd, supp_data=sd, supp_txt=st, newline=nl)
+    # --- H: temperature bounds with long decimal expansions (the widest text a T field may have to hold)
+    # every increasing triple whose bounds lie at least 0.5 K apart (the read clauses evaluate the species at the
+    # mid-points of both ranges and 0.2 K either side of T_mid: closer bounds would put these points inside the
+    # 0.1 K the statement allows T_mid to move): every value in every position it can take
+    triples = [t for t in itertools.combinations(T_LONG, 3) if _t_apart(t)]
+    for i, (lo, mid, hi) in enumerate(triples):
+        yield _xcase('T-long', [_dflt(T=[lo, mid, hi])], write_date=bool(i % 2))
+        yield _xcase('T-long', [_before(), _dflt(T=[lo, mid, hi]), _after()], write_date=not i % 2,
+                     container=['list', 'dict'][i % 2], fmt=['list', 'tuple', 'dict'][i % 3])
+    for v in T_LONG:                                      # one long value, the other two round; full composition
+        for pos, T in enumerate(([v, 9999.0, 9999.9], [1.0, v, 9999.9], [1.0, 2.0, v])):
+            if not _t_apart(T):
+                continue
+            for els in T_LONG_ELEMENTS:
+                yield _xcase('T-long', [_dflt(T=T, elements=els)], write_date=False)
+            yield _xcase('T-long', [_dflt(T=T, T_type='np-float')])
+            yield _xcase('T-long', [_before(), _dflt(T=T, T_type='np-float', phase='S')], newline='\r\n')
+    # --- I: supplementary data that is a whole thermdat text (own THERMO / END lines), species written after it
+    afters = [[_dflt()], [_dflt(name='END')], [_mk(10, '2THERMO', [['C', 1, 'int'], ['O', 2, 'int']], phase='L'),
+                                               _after()],
+              [_mk(11, 'THERMO', [['Pt', 1, 'int']], phase='S'), _mk(12, 'END', [['C', 1, 'int'], ['H', 4, 'int']]),
+               _before()]]
+    for i, sd in enumerate(SUPP_INNER):
+        for j, sp_list in enumerate(afters):
+            for st in (None, '! new species\n! END of comment'):
+                for container in ('list', 'dict'):
+                    yield _xcase('supp-inner', sp_list, supp_data=sd, supp_txt=st, container=container,
+                                 fmt=['list', 'tuple', 'dict'][(i + j) % 3], write_date=bool((i + j) % 2))
     # --- G: a species edited in place between two writes of the same objects
     for label, edit in EDITS:
         for container in ('list', 'dict'):
@@ -482,7 +528,14 @@ def bounds(tier):
         typed_inputs=dict(coefficients=['int', 'np-int', 'np-float', 'tuple'], T=['int', 'np-int', 'np-float']),
         options=dict(write_date=[True, False, 1, 0], supp_data=[None, '', 'one entry'], supp_txt=[None, '', '!c'],
                      newline=['\\n', '\\r\\n', None, '']),
-        edits_in_place=[e[0] for e in EDITS], cases=sum(1 for _ in _extra_cases(tier)))
+        edits_in_place=[e[0] for e in EDITS],
+        T_long=dict(values=T_LONG, rule='every increasing triple with bounds >= 0.5 K apart (alone and as the middle species of three); each '
+                    'value alone in T_low / T_mid / T_high with round neighbours x 4 compositions (1 to 4 slots, up '
+                    'to column 44) and as numpy.float64'),
+        supp_data_with_keyword_lines=dict(kinds=SUPP_INNER, species_after=['H2', 'END', '2THERMO+PT(S)',
+                                                                           'THERMO+END+CH4'],
+                                          supp_txt=[None, 'two comment lines'], containers=2),
+        cases=sum(1 for _ in _extra_cases(tier)))
     if tier == 'thorough':
         b['deviation_level_3_reduced_coordinates'] = {n: len(v) for n, v in _coords(tier, True)}
     return b
@@ -582,7 +635,39 @@ def _supp_text(key):
     if key == 'two':
         return ref.format_entry(SUPP_SPECIES[1]) + '\n' + ref.format_entry(SUPP_SPECIES[0]) + '\n', \
             [SUPP_SPECIES[1], SUPP_SPECIES[0]]
+    if key in SUPP_INNER:
+        e0, e1 = ref.format_entry(SUPP_SPECIES[0]), ref.format_entry(SUPP_SPECIES[1])
+        s0, s1 = SUPP_SPECIES[0], SUPP_SPECIES[1]
+        if key == 'file-one':
+            return SUPP_HDR + e0 + '\nEND\n', [s0]
+        if key == 'file-two':
+            return SUPP_HDR + e1 + '\n' + e0 + '\nEND\n', [s1, s0]
+        if key == 'file-nonl':
+            return SUPP_HDR + e0 + '\nEND', [s0]
+        if key in ('file-self', 'file-self-dated'):
+            # the text write_thermdat itself returns for a library of two species (input here, not an oracle)
+            from pmutt.io.thermdat import write_thermdat
+            return write_thermdat([_build_supp(s1), _build_supp(s0)], write_date=(key == 'file-self-dated')), [s1, s0]
+        if key == 'two-files':
+            return SUPP_HDR + e0 + '\nEND\n' + SUPP_HDR + e1 + '\nEND\n', [s0, s1]
+        if key == 'end-only':
+            return e0 + '\nEND\n', [s0]
+        if key == 'end-first':
+            return 'END\n' + e1 + '\n', [s1]
+        if key == 'end-padded':
+            return SUPP_HDR + e0 + '\n' + 'END'.ljust(80) + '\n', [s0]
+        if key == 'end-comment':
+            return SUPP_HDR + e1 + '\nEND\n! species added to the library above\n', [s1]
+        if key == 'thermo-only':
+            return 'THERMO\n   300.000  1000.000  5000.000\n' + e1 + '\n', [s1]
     raise ValueError(key)
+
+
+def _build_supp(sp):
+    from pmutt.empirical.nasa import Nasa
+    return Nasa(name=sp['name'], elements={s: n for s, n in sp['elements']}, phase=sp['phase'], T_low=sp['T_low'],
+                T_mid=sp['T_mid'], T_high=sp['T_high'], a_high=list(sp['a_high']), a_low=list(sp['a_low']),
+                notes=sp['notes'])
 
 
 def _count(n, typ):
@@ -718,6 +803,20 @@ def _carries(v):
     return m == '1.00000000' and abs(v) != float('1e' + e)
 
 
+def _t_long(v):
+    """True when the temperature needs more than two decimals (298.15 and 1000.05 of the old alphabet do not)."""
+    return round(float(v), 2) != float(v)
+
+
+def _t_apart(T):
+    return T[1] - T[0] >= 0.5 and T[2] - T[1] >= 0.5
+
+
+def _t_wider(v):
+    """True when rounding to 0.1 K needs one more character than the integer part of the value has."""
+    return len('%.1f' % v) > len('%d' % int(v)) + 2
+
+
 def _elem_class(sp):
     c = []
     nz = [(s, n, t) for s, n, t in sp['elements'] if n != 0]
@@ -751,6 +850,10 @@ def _sig(case, species):
     typed = sorted(set(t for sp in species for t in (sp.get('a_type'), sp.get('T_type')) if t))
     if typed:
         sig['typed'] = '+'.join(typed)
+    if any(_t_long(v) for sp in species for v in sp['T']):
+        sig['T'] = 'long'
+    if case['supp_data'] in SUPP_INNER:
+        sig['supp'] = 'inner-keyword'
     opt = _opt_class(case)
     if opt:
         sig['opt'] = opt
@@ -892,6 +995,10 @@ def _observe_tags(case, raw, parsed, species):
             tags.add('typed:int-coefficients')
         if sp.get('T_type') in ('int', 'np-int'):
             tags.add('typed:int-T')
+        if any(_t_long(v) for v in sp['T']):
+            tags.add('T:more-than-2-decimals')
+        if any(_t_wider(v) for v in sp['T']):
+            tags.add('T:rounds-up-to-a-wider-text')
         if not case['write_date'] and sp['notes'] and '!' in sp['notes'][:8]:
             tags.add('notes:bang')
         if not case['write_date']:
@@ -908,6 +1015,11 @@ def _observe_tags(case, raw, parsed, species):
         tags.add('supp_data')
         if case['supp_data'] == 'one-nonl':
             tags.add('supp_data:no-trailing-newline')
+        if case['supp_data'] in SUPP_INNER:
+            if parsed.get('n_end', 0) > 1:
+                tags.add('supp_data:inner-END-line')
+            if parsed['counts'].get('keyword', 0) - parsed.get('n_end', 0) > 1:
+                tags.add('supp_data:inner-THERMO-line')
     if parsed['counts'].get('comment'):
         tags.add('supp_txt')
     tags.add('container:' + case['container'])
@@ -936,7 +1048,9 @@ PLANNED_TAGS = ['name~END', 'name~THERMO', 'name:digit-first', 'name:len15', 'na
                 'name:bang-inside', 'name:bang-first', 'name:number-like', 'phase:lower', 'phase:digit', 'phase:punct',
                 'coef:carry-to-next-decade', 'typed:int-coefficients', 'typed:int-T', 'notes:bang',
                 'opt:supp_data-empty', 'opt:supp_txt-empty', 'opt:newline-none', 'opt:newline-empty',
-                'opt:write_date-int', 'edit:in-place', 'reread:after-editing-the-first-result']
+                'opt:write_date-int', 'edit:in-place', 'reread:after-editing-the-first-result',
+                'T:more-than-2-decimals', 'T:rounds-up-to-a-wider-text', 'supp_data:inner-END-line',
+                'supp_data:inner-THERMO-line']
 
 C_L1 = 'layout: every line is a header/comment/END line or an 80-column record numbered 1-4 in column 80, in sequence'
 C_L2 = 'layout: fixed-column parser finds as many species in the text as were written'
@@ -1046,7 +1160,9 @@ def _evaluate_inner(case, ctx, env, species, sig, objs=None, coll=None, stage=No
                    observed=len(image), expected='file image == returned text with the requested newline')
 
     # ---- oracle 1: independent fixed-column parser on the written text
-    parsed = ref.parse(image)
+    # a whole thermdat text as supplementary data brings its own END line: records may follow it, the data
+    # must still close with END (every other case: any record after END is a layout problem, as before)
+    parsed = ref.parse(image, inner_end=case['supp_data'] in SUPP_INNER)
     ctx.trans(sum(parsed['counts'].values()))
     tags = _observe_tags(case, raw, parsed, species)
     for t in tags:
